@@ -415,6 +415,27 @@ static void c15(long long seedv) {
     LocalDate back = LocalDate::forDateString(fmtDate(y, m, d).c_str());
     if (back != ld) { J j; j.str("text", fmtDate(y, m, d)); witness("c15:ld-parse", "LocalDate parse wrong", j); }
   }
+  // the public chainable parsers (they read one value and move the pointer on, so values can be strung together): same
+  // value as the plain parser. Where the pointer is left is not part of the property and is not judged
+  // (TimeOffset::forOffsetStringChainable steps one character past the minutes).
+  for (int k = 0; k < 20000; k++) {
+    int64_t z = rng.range(first, last); int64_t y; unsigned m, d; civil_from_days(z, y, m, d);
+    unsigned h = rng.below(24), mi = rng.below(60), se = rng.below(60); int off = (int) rng.range(-5999, 5999);
+    char b[64]; snprintf(b, sizeof b, "%04d-%02u-%02uT%02u:%02u:%02u%c%02d:%02d|tail", (int) y, m, d, h, mi, se, off < 0 ? '-' : '+', abs(off) / 60, abs(off) % 60);
+    const char* p1 = b; LocalDate cd = LocalDate::forDateStringChainable(p1);
+    const char* p2 = b + 11; LocalTime ct = LocalTime::forTimeStringChainable(p2);
+    const char* p3 = b; LocalDateTime cdt = LocalDateTime::forDateStringChainable(p3);
+    const char* p4 = b; OffsetDateTime co = OffsetDateTime::forDateStringChainable(p4);
+    const char* p5 = b + 19; TimeOffset cf = TimeOffset::forOffsetStringChainable(p5);
+    CNT.add("c15.chainable", 5);
+    const char* bad = nullptr;
+    if (cd != LocalDate::forComponents((int16_t) y, m, d)) bad = "LocalDate";
+    else if (ct != LocalTime::forComponents(h, mi, se)) bad = "LocalTime";
+    else if (cdt != LocalDateTime::forComponents((int16_t) y, m, d, h, mi, se)) bad = "LocalDateTime";
+    else if (co != OffsetDateTime::forComponents((int16_t) y, m, d, h, mi, se, TimeOffset::forMinutes((int16_t) off))) bad = "OffsetDateTime";
+    else if (cf.toMinutes() != off) bad = "TimeOffset";
+    if (bad) { J j; j.str("type", bad).str("text", b); witness("c15:chainable-parse", "a chainable parser returns another value than the one printed", j); }
+  }
   // all times of day on one date
   for (unsigned t = 0; t < 86400; t++) {
     c15_check_ldt(2021, 3, 4, t / 3600, t / 60 % 60, t % 60);
